@@ -184,9 +184,12 @@ class Hist:
                 if kind == 'map':
                     return entry(P, s.mod, 'insert', 3), [TREE, k, v]
                 return entry(P, s.mod, 'insert', 2), [TREE, [k, v]]
-            if op in ('delete', 'get_value', 'first_index_less', 'pred_read', 'pred_write', 'pred_delete', 'pred_after', 'pred_before'):
+            if op in ('delete', 'get_value', 'first_index_less', 'pred_read', 'pred_write', 'pred_delete', 'pred_after', 'pred_before', 'pred_insert_read'):
                 k = s.sym(st, 'k', KW)
                 A['cur'] = {'k': k}
+                if op == 'pred_insert_read':
+                    A['cur']['k2'] = s.sym(st, 'k2', KW)
+                    A['cur']['v2'] = s.sym(st, 'v2', VW)
                 if op.startswith('pred_'):
                     A['phase'] = 0
                     if op == 'pred_write':
@@ -298,6 +301,15 @@ class Hist:
                 cur['h'] = r
                 cur['pk'], cur['pv'] = key, val
                 A['phase'] = 1
+                if op == 'pred_insert_read':
+                    found, _ = ref.lookup(cur['k2'])
+                    if not s.assume(eng, st, z3.Not(found)):
+                        A['phase'] = 9
+                        return None
+                    A['phase'] = 11
+                    if kind == 'map':
+                        return entry(s.P, s.mod, 'insert', 3), [TREE, cur['k2'], cur['v2']]
+                    return entry(s.P, s.mod, 'insert', 2), [TREE, [cur['k2'], cur['v2']]]
                 name = {'pred_read': 'value_by_index', 'pred_write': 'value_by_index_mut', 'pred_delete': 'delete_by_index',
                         'pred_after': 'index_after', 'pred_before': 'index_before'}[op]
                 return entry(s.P, s.mod, name, 2), [TREE, r]
@@ -326,6 +338,25 @@ class Hist:
                     cur['nk'], cur['nvv'] = key, val
                     A['phase'] = 2
                     return entry(s.P, s.mod, 'value_by_index', 2), [TREE, r]
+                A['phase'] = 9
+                return None
+            if ph == 11:
+                A['ref'] = ref.with_entry(cur['k2'], None, cur['v2'])
+                A['phase'] = 12
+                return entry(s.P, s.mod, 'value_by_index', 2), [TREE, cur['h']]
+            if ph == 12:
+                got = eng.read(st, r)
+                if kind == 'set':
+                    s.post(eng, st, 'C17:handle-stable-read', z3.And(got[0] == cur['pk'], got[1] == cur['pv']))
+                else:
+                    s.post(eng, st, 'C17:handle-stable-read', got == cur['pv'])
+                A['phase'] = 13
+                if kind == 'map':
+                    return entry(s.P, s.mod, 'first_index_less', 2), [TREE, cur['pk']]
+                st.heap[f'argkeyb{A["pos"]}'] = cur['pk']
+                return entry(s.P, s.mod, 'first_index_less', 2), [TREE, Ref(('heap', f'argkeyb{A["pos"]}'))]
+            if ph == 13:
+                s.post(eng, st, 'C17:handle-stable-lookup', r == cur['h'])
                 A['phase'] = 9
                 return None
             if ph == 2:
